@@ -1,6 +1,7 @@
 package main
 
 import (
+	"github.com/pip-services3-gox/pip-services3-expressions-gox/tokenizers/utilities"
 	"fmt"
 	"strings"
 	"time"
@@ -319,6 +320,41 @@ func propScaleTables(c *Ctx, which string) {
 		}
 		ops = append(ops, mapOp{'a', 0x100, 0x17f, "2"})
 		runCmapCase(c, ops, []int{0xff, 0x100, 0x17f, 0x180, 0x416, 0x2000, 0x2001, 0x2003, 0x4e16, 0xfffe})
+	}
+	if c.Thorough {
+		// more than 100 000 registrations on one map (no Clear): an early wide range whose two END POINTS were re-registered
+		// narrowly later still answers for its middle (direct oracle only; the library copies its list on every registration)
+		op := "cmapbig 100100"
+		c.record(op, true)
+		c.count("cmap-100k-registrations")
+		note := ""
+		st := safeCallT(600*time.Second, func() string {
+			m := utilities.NewCharReferenceMap()
+			m.AddInterval(0x5000, 0x5fff, refA)
+			m.AddInterval(0x5000, 0x5000, refB)
+			m.AddInterval(0x5fff, 0x5fff, refB)
+			m.AddInterval(0x7000, 0x7fff, refB)
+			m.AddInterval(0x6ff0, 0x7010, refA)
+			m.AddInterval(0x7ff0, 0x8010, refA)
+			for i := 0; i < 100100; i++ {
+				lo := rune(0x100 + (i*7)%0x3000)
+				m.AddInterval(lo, lo+2, []any{refA, refB, nil}[i%3])
+			}
+			m.AddInterval(0x100, 0x4fff, nil)
+			for _, pr := range []struct {
+				ch   rune
+				want string
+			}{{0x5800, "1"}, {0x5000, "2"}, {0x5fff, "2"}, {0x5001, "1"}, {0x7800, "2"}, {0x7000, "1"}, {0x8000, "1"}, {0x2000, "n"}, {0x6000, "n"}} {
+				if got := showRefAny(m.Lookup(pr.ch)); got != pr.want {
+					note = fmt.Sprintf("after 100 107 registrations Lookup(%#x) = %s, the latest covering registration says %s", pr.ch, got, pr.want)
+					return ""
+				}
+			}
+			return ""
+		})
+		if st != "" || note != "" {
+			c.fail(Failure{Kind: "oracle", Op: op, Impl: st, Note: note})
+		}
 	}
 	// two different reference objects with equal content registered for the same range one after the other, re-registration of
 	// a range after an overlapping one (below and above U+0100)
